@@ -1271,6 +1271,83 @@ func akPeerSpecs() []akPeerSpec {
 	return out
 }
 
+// ---------------------------------------------------------------- mode queue (clientPacketQueue, Retries > 0)
+
+type akQueueRow struct {
+	Mode     string     `json:"mode"`
+	Retries  int        `json:"retries"`
+	Timeout  int        `json:"timeout"`
+	CutAt    int        `json:"cut_at"` // ms after Emit at which the server drops the connection (-1: never)
+	Delay    int        `json:"delay"`  // ms the server handler waits before answering
+	Invs     []akAckInv `json:"invs"`
+	Invs2    []akAckInv `json:"invs2"`   // callback of a second packet queued behind the first
+	Handled  int        `json:"handled"` // how often the server handler ran
+	Connects int        `json:"connects"`
+	Ms       int64      `json:"ms"`
+	Err      string     `json:"err,omitempty"`
+}
+
+func akRunQueue(retries, timeoutMs, cutAt, delay int, patience time.Duration) (row akQueueRow) {
+	start := time.Now()
+	row = akQueueRow{Mode: "queue", Retries: retries, Timeout: timeoutMs, CutAt: cutAt, Delay: delay, Invs: []akAckInv{}}
+	srv := sio.NewServer(&sio.ServerConfig{})
+	if err := srv.Run(); err != nil {
+		row.Err = err.Error()
+		return row
+	}
+	ts := httptest.NewServer(srv)
+	defer func() {
+		srv.Close()
+		ts.Close()
+	}()
+	var handled, connects atomic.Int32
+	socks := make(chan sio.ServerSocket, 8)
+	srv.OnConnection(func(s sio.ServerSocket) {
+		connects.Add(1)
+		s.OnEvent("q", func(n int, ack func(int)) {
+			handled.Add(1)
+			go func() {
+				time.Sleep(time.Duration(delay) * time.Millisecond)
+				ack(n + 1)
+			}()
+		})
+		socks <- s
+	})
+	rd := 20 * time.Millisecond
+	manager := sio.NewManager(ts.URL, &sio.ManagerConfig{EIO: akWsOnly(), ReconnectionDelay: &rd, ReconnectionDelayMax: &rd})
+	socket := manager.Socket("/", &sio.ClientSocketConfig{Retries: retries, AckTimeout: time.Duration(timeoutMs) * time.Millisecond})
+	defer manager.Close()
+	socket.Connect()
+	var ss sio.ServerSocket
+	select {
+	case ss = <-socks:
+	case <-time.After(patience + 3*time.Second):
+		row.Err = "no connection"
+		return row
+	}
+	for i := 0; i < 400 && !socket.Connected(); i++ {
+		time.Sleep(time.Millisecond)
+	}
+	rec := akNewAckRec(true, false)
+	rec.t0 = time.Now()
+	socket.Emit("q", 41, rec.callback())
+	rec2 := akNewAckRec(true, false)
+	rec2.t0 = rec.t0
+	socket.Emit("q", 51, rec2.callback())
+	defer func() { row.Invs2 = rec2.snapshot() }()
+	if cutAt >= 0 {
+		time.Sleep(time.Duration(cutAt) * time.Millisecond)
+		ss.Disconnect(true)
+	}
+	rec.waitCount(1, patience+time.Duration(timeoutMs*(retries+2))*time.Millisecond)
+	time.Sleep(time.Duration(timeoutMs*(retries+1)+delay+100) * time.Millisecond)
+	row.Invs = rec.snapshot()
+	row.Handled = int(handled.Load())
+	row.Connects = int(connects.Load())
+	row.Ms = time.Since(start).Milliseconds()
+	return row
+}
+
 // ---------------------------------------------------------------- driver
 
 func akParallel(n, workers int, f func(i int)) {
@@ -1483,6 +1560,10 @@ func acksMain(args []string) error {
 		for _, row := range rows {
 			out.Put(row)
 		}
+	case "queue":
+		// retry queue without a reconnect, and with a reconnect while the first attempt is pending
+		out.Put(akRunQueue(1, 200, -1, 20, patience))
+		out.Put(akRunQueue(1, 200, 60, 150, patience))
 	case "rawpeer":
 		var specs []akPeerSpec
 		if *only != "" {
